@@ -669,6 +669,64 @@ impl Part for RandomUnicode {
     }
 }
 
+
+/// Whether a caret-free text survives encode -> decode must not depend on its neighbours: rt(a + b) == rt(a) && rt(b). No
+/// table knowledge is used, so the relation also covers characters about which the reference tables are silent (C1 controls,
+/// private-use and unassigned code points): a fast path or cache that treats a character differently by context breaks it.
+pub struct ContextFree;
+impl Part for ContextFree {
+    type Case = (String, String);
+    fn name(&self) -> &'static str {
+        "round-trip-is-context-free"
+    }
+    fn check(&self, c: &(String, String), ev: &mut Local) -> Result<(), Fail> {
+        let rt = |s: &str| -> Result<(bool, Vec<u8>, String), Fail> {
+            let w = encode(s)?;
+            let d = decode(&w)?;
+            Ok((d == s, w, d))
+        };
+        let ab = format!("{}{}", c.0, c.1);
+        let (ra, wa, da) = rt(&c.0)?;
+        let (rb, wb, db) = rt(&c.1)?;
+        let (rab, wab, dab) = rt(&ab)?;
+        ensure!(
+            rab == (ra && rb),
+            "c10:roundtrip-depends-on-context",
+            "{:?} -> {} -> {:?} ({}), {:?} -> {} -> {:?} ({}), but together {:?} -> {} -> {:?} ({})",
+            c.0,
+            hex(&wa),
+            da,
+            if ra { "survives" } else { "does not survive" },
+            c.1,
+            hex(&wb),
+            db,
+            if rb { "survives" } else { "does not survive" },
+            ab,
+            hex(&wab),
+            dab,
+            if rab { "survives" } else { "does not survive" }
+        );
+        if !c.0.is_empty() && !c.1.is_empty() {
+            ev.nontrivial(c);
+        }
+        ev.class(match (ra, rb) {
+            (true, true) => "both survive",
+            (false, false) => "neither survives",
+            _ => "one survives",
+        });
+        if ev.wants_sample() && !ab.is_ascii() && ab.chars().count() <= 4 {
+            ev.sample(|| json!({"a": c.0, "b": c.1, "wire": hex(&wab), "survives": rab}));
+        }
+        Ok(())
+    }
+    fn to_json(&self, c: &(String, String)) -> Value {
+        json!({"a": c.0, "b": c.1})
+    }
+    fn from_json(&self, v: &Value) -> Option<(String, String)> {
+        Some((v.get("a")?.as_str()?.to_string(), v.get("b")?.as_str()?.to_string()))
+    }
+}
+
 pub fn parts() -> Vec<Box<dyn DynPart>> {
     vec![
         Box::new(DecodeSweep),
@@ -676,6 +734,7 @@ pub fn parts() -> Vec<Box<dyn DynPart>> {
         Box::new(Faithful),
         Box::new(Unrepresentable),
         Box::new(MarkerPairs),
+        Box::new(ContextFree),
         Box::new(RandomBytes),
         Box::new(RandomUnicode),
     ]
@@ -729,4 +788,18 @@ pub fn run(run: &mut Run) {
     run.prop(&RandomBytes, bytes_strategy(), n);
     let n = run.budget(100_000, 5_000_000);
     run.prop(&RandomUnicode, proptest::collection::vec(any::<char>(), 0..24).prop_map(|v| v.into_iter().collect::<String>()), n);
+    // context independence of the round trip, over ASCII, the table repertoires, all of U+0080..U+00FF and arbitrary characters
+    let tables = cp::tables();
+    let ch = prop_oneof![
+        3 => (0x20u8..0x7E).prop_map(|b| if b == b'^' { '~' } else { b as char }),
+        3 => (0..tables.len(), any::<prop::sample::Index>()).prop_map(move |(t, ix)| {
+            let e = &tables[t].entries;
+            e[ix.index(e.len())].1
+        }),
+        3 => (0x80u32..0x100).prop_map(|c| char::from_u32(c).unwrap()),
+        1 => any::<char>().prop_map(|c| if c == '^' { '~' } else { c }),
+    ];
+    let word = proptest::collection::vec(ch, 0..4).prop_map(|v| v.into_iter().collect::<String>());
+    let n = run.budget(200_000, 10_000_000);
+    run.prop(&ContextFree, (word.clone(), word), n);
 }
